@@ -85,11 +85,10 @@ def call_ar1(ctx, fn, name, n, rho, sigma, mu, nstd=None):
     optional arguments omitted (when they equal the default) / positional / keyword; NumPy scalars"""
     r = ctx.rng
     sc = r.random() < 0.5
-    # n: tauchen takes every NumPy integer type; rouwenhorst only the wide ones here, the narrow ones
-    # (int8/uint8/int16/uint16) lose precision in np.sqrt(n - 1) -> see narrow_n_probe / rouwenhorst_narrow_int_n
+    # n: every NumPy integer type for both functions (narrow ones: regression guard for rouwenhorst_narrow_int_n)
     wide = [np.int32, np.int64, np.uint32, np.uint64, np.intp]
     narrow = [np.int8, np.uint8, np.int16, np.uint16]
-    nT = r.choice(wide + (narrow if name == "tauchen" else []))
+    nT = r.choice(wide + narrow)
     nn = nT(n) if sc else n
     fT = r.choice([np.float64, np.float64, (lambda v: np.array(v, dtype=np.float64))]) if sc else (lambda v: v)
     f = fT
@@ -132,13 +131,13 @@ def call_ar1(ctx, fn, name, n, rho, sigma, mu, nstd=None):
 
 
 class _Reroute:
-    """judge with the ordinary oracle but report under one narrow key through `unlisted`"""
+    """judge with the ordinary oracle but report every failure under one narrow key"""
     def __init__(self, ctx, key, extra):
         self.ctx, self.key, self.extra, self.hit = ctx, key, extra, False
 
     def spec_fail(self, key, what, replay):
         self.hit = True
-        unlisted(self.ctx, self.key, "%s [%s]: %s" % (self.extra, key, what), dict(replay, form=self.extra))
+        self.ctx.spec_fail(self.key, "%s [%s]: %s" % (self.extra, key, what), dict(replay, form=self.extra))
 
     def count(self, *a, **k):
         pass
@@ -148,7 +147,8 @@ def scalar_form_probes(ctx):
     """scalar forms that the clean code treats in reduced precision"""
     from quantecon.markov.approximation import rouwenhorst, tauchen
     r = ctx.rng
-    # (a) n as a narrow NumPy integer: np.sqrt(n - 1) is float16 / float32 and drags the grid with it
+    # (a) n as a narrow NumPy integer (fixed finding rouwenhorst_narrow_int_n: np.sqrt(n - 1) was float16 / float32
+    #     and dragged the grid with it): ordinary oracle-checked cases, bits must equal the Python-int call
     for T in (np.int8, np.uint8, np.int16, np.uint16):
         for _ in range(ctx.n(2, 6)):
             n, rho, sigma, mu = ar1_params(ctx, "small")
@@ -156,6 +156,11 @@ def scalar_form_probes(ctx):
             try:
                 mc = rouwenhorst(T(n), rho, sigma, mu)
                 rouw_spec(rr, n, rho, sigma, mu, np.asarray(mc.P, dtype=float), np.asarray(mc.state_values, dtype=float))
+                ref = rouwenhorst(n, rho, sigma, mu)
+                if snap(mc.state_values) != snap(ref.state_values) or snap(mc.P) != snap(ref.P):
+                    rr.spec_fail("bits", "result differs from the call with a Python int n (dtype %s)" % np.asarray(mc.state_values).dtype,
+                                 {"op": "rouwenhorst", "n": n, "rho_hex": float(rho).hex(), "sigma_hex": float(sigma).hex(),
+                                  "mu_hex": float(mu).hex()})
             except Exception as e:
                 rr.spec_fail("raises", "%s: %s" % (type(e).__name__, e), {"op": "rouwenhorst", "n": n, "rho_hex": float(rho).hex(),
                                                                       "sigma_hex": float(sigma).hex(), "mu_hex": float(mu).hex()})
